@@ -312,7 +312,12 @@ def run_objarg(ctx, p):
         else:
             obj = np.asarray(p['vec'], dtype=np.float64)       # degenerate numeric argument (zero / tiny / non-finite)
             sig['defect'] = p['defect']
-        arg = obj if p['form'] == 'bare' else [obj]
+        if p['form'] in ('Nx4:first', 'Nx4:last', '1x4'):
+            # the degenerate 4-vector as one row of the N x 4 array form, next to valid unit rows
+            good_ = np.array([[1.0, 0, 0, 0], [0.5, 0.5, 0.5, 0.5]])
+            arg = obj.reshape(1, 4) if p['form'] == '1x4' else np.vstack([obj, good_] if p['form'] == 'Nx4:first' else [good_, obj])
+        else:
+            arg = obj if p['form'] == 'bare' else [obj]
     except Exception as e:
         ctx.harness_errors.append('objarg operand construction failed: %r' % (e,))
         return
@@ -681,7 +686,7 @@ def run(ctx):
         if n is None or cname != 'UnitQuaternion':
             continue            # R^4 and the twist vector spaces have no membership condition; a unit quaternion has: norm 1
         for defect in ('zero', 'tiny', 'nan', 'inf'):
-            for form in ('bare', 'list'):
+            for form in ('bare', 'list', 'Nx4:first', 'Nx4:last', '1x4'):
                 k += 1
                 if not ctx.mine(k):
                     continue
